@@ -1,4 +1,5 @@
 import LcModel.Prove.LemmasC05
+import LcModel.Prove.LemmasC05Sampled
 /-!
 # C05 — honest peers are never rejected and the client converges to the heaviest tip
 
@@ -794,5 +795,98 @@ theorem answer_sampling_genesis_is_accepted :
         ⟨gblk 7 ⟨3, 1, 2⟩, [], [gblk 6 ⟨3, 0, 2⟩]⟩) ∧
       out.st.stored = ⟨64, gblk 7 ⟨3, 1, 2⟩, [(6, 6)]⟩ :=
   ⟨by rfl, by rfl, by decide, by decide, _, by rfl, rfl, rfl, by rfl, by rfl⟩
+
+/-! ## 7. the honest answer WITH sampled headers passes the shape check, in general -/
+
+/-- **the matching loop consumes the honest samples.**  Over any chain with total difficulties
+`td` whose block `n` (`1 ≤ n < hi`) has the header `hdr n`: for requested difficulties `ds` above
+the start block's total difficulty that blocks before `hi` reach, followed by difficulties `extra`
+that no block before `hi` reaches, the loop of `check_if_response_is_matched`, run on the headers
+of the blocks the server selects (`Prove.sel`: every difficulty selects the first block that
+reaches it), accepts every one of them and leaves exactly `extra`. -/
+theorem matching_loop_consumes_honest_samples (td : Nat → Nat) (hdr : Nat → VH) (lo hi : Nat)
+    (hhdr : ∀ n, 1 ≤ n → n < hi → IsBlock td (hdr n) ∧ (hdr n).number = n)
+    (ds extra : List Nat)
+    (hds : ∀ d ∈ ds, td lo < d ∧ ∃ m, lo ≤ m ∧ m < hi ∧ d ≤ td m)
+    (hex : ∀ e ∈ extra, ∀ m, m < hi → td m < e) :
+    checkMatched.matchLoop ((sel td lo hi ds).map hdr) (ds ++ extra) = .ok (some extra) :=
+  matchLoop_honest td hdr lo hi hhdr ds.length ds extra (Nat.le_refl _) hds hex
+
+/-- **C05 (proof, sampling branch — the shape check).**  Over any chain with strictly increasing
+total difficulties, for any request (increasing difficulties above the start block's total
+difficulty, at least one of them reached before the boundary block `bb`) the honest answer -
+the reorg headers the request demands, the headers of the blocks the server's rule selects, the
+blocks `bb .. last - 1` (the block before `bb` does not reach the boundary; at least `lastN` blocks,
+more only when `bb` is the first block that reaches the boundary) - passes
+`check_if_response_is_matched` with the server's own split `(reorg, sampled, last-N)`: an honest
+peer is not banned by the shape check, whatever the chain, the request and the client's samples.
+(Together with `answer_without_samples_accepted_shape` and
+`answer_without_samples_long_section_accepted_shape` this covers every honest answer in the
+sampling branch; the checks after the shape check are `C14.complete*` for the difficulties and
+the verdict inputs.) -/
+theorem sampled_answer_accepted_shape (td : Nat → Nat) (hstrict : ∀ m n, m < n → td m < td n)
+    (hdr : Nat → VH) (lastN : Nat) (c : ReqContent) (last bb : Nat) (rs : List VH)
+    (hhdr : ∀ n, 1 ≤ n → n ≤ last → IsBlock td (hdr n) ∧ (hdr n).number = n)
+    (hlo : c.startNumber < bb) (hbl : bb < last)
+    (hpw : c.difficulties.Pairwise (· < ·))
+    (hgt : ∀ d ∈ c.difficulties, td c.startNumber < d)
+    (hsome : c.difficulties.takeWhile (fun d => decide (d ≤ td (bb - 1))) ≠ [])
+    (hb1 : td (bb - 1) < c.boundary)
+    (hlen : lastN ≤ last - bb) (hlong : lastN < last - bb → c.boundary ≤ td bb)
+    (hrsorted : checkMatched.sorted rs = true)
+    (hrs : ∀ x ∈ rs, x.number < c.startNumber)
+    (hreorg : rs ≠ [] → (rs.length = lastN ∨ rs.head?.map (·.number) = some 1) ∧
+      rs.getLast?.map (·.number) = some (c.startNumber - 1))
+    (hrtd : ∀ x ∈ rs, ∃ xtd, x.td = .ok xtd ∧ xtd < c.boundary) :
+    checkMatched lastN c
+      (rs ++ (sel td c.startNumber bb
+          (c.difficulties.takeWhile (fun d => decide (d ≤ td (bb - 1))))).map hdr
+        ++ (List.range' bb (last - bb)).map hdr) (hdr last) =
+      .ok (.ok (rs.length,
+        (sel td c.startNumber bb
+          (c.difficulties.takeWhile (fun d => decide (d ≤ td (bb - 1))))).length,
+        last - bb)) :=
+  checkMatched_honest_sampled td hstrict hdr lastN c last bb rs hhdr hlo hbl hpw hgt hsome hb1 hlen
+    hlong hrsorted hrs hreorg hrtd
+
+/-- the test chain of this file: block `n` has the total difficulty `8 * n` -/
+def tblk (n : Nat) : VH := blk n n (n - 1)
+
+theorem tblk_is_block (n : Nat) (h : 1 ≤ n) (hn : n ≤ 1000) :
+    IsBlock (fun n => 8 * n) (tblk n) ∧ (tblk n).number = n := by
+  refine ⟨⟨rfl, ?_⟩, rfl⟩
+  show addU256 60 (8 * (n - 1)) (Difficulty.compactToDifficulty 0x20200000) = .ok (8 * n)
+  have hc : Difficulty.compactToDifficulty 0x20200000 = 8 := by decide
+  rw [hc, addU256_eq_ok]
+  have : (1000 : Nat) * 8 ≤ U256_MAX := by decide
+  omega
+
+/-- the premises of `sampled_answer_accepted_shape` are satisfiable: `last_n_blocks = 3`, start
+block 10, last block 40, boundary 245 (block 31 is the first to reach it: `bb = 31`), requested
+difficulties 100, 101, 150, 246 (blocks 13, 13 again, 19; 246 lies inside block 31): the answer
+is the blocks 13, 19 and 31 .. 39, shape `(0, 2, 9)` -/
+example : checkMatched 3 ⟨40, 10, 10, 3, 245, [100, 101, 150, 246]⟩
+    ([] ++ [tblk 13, tblk 19] ++ (List.range' 31 9).map tblk) (tblk 40) = .ok (.ok (0, 2, 9)) := by
+  have h := sampled_answer_accepted_shape (fun n => 8 * n) (by intro m n h; omega) tblk 3
+    ⟨40, 10, 10, 3, 245, [100, 101, 150, 246]⟩ 40 31 []
+    (fun n h1 h2 => tblk_is_block n h1 (by omega)) (by decide) (by decide) (by decide) (by decide)
+    (by decide) (by decide) (by decide) (by decide) (by rfl) (by simp) (by simp) (by simp)
+  have hsel : sel (fun n => 8 * n) 10 31
+      (([100, 101, 150, 246] : List Nat).takeWhile (fun d => decide (d ≤ 8 * (31 - 1)))) = [13, 19] := by
+    have : ([100, 101, 150, 246] : List Nat).takeWhile (fun d => decide (d ≤ 8 * (31 - 1)))
+        = [100, 101, 150] := by decide
+    rw [this]
+    rw [sel]
+    have f1 : firstReach (fun n => 8 * n) 10 31 100 = 13 := by decide
+    rw [f1]
+    have d1 : ([101, 150] : List Nat).dropWhile (fun x => decide (x ≤ 8 * 13)) = [150] := by decide
+    rw [d1, sel]
+    have f2 : firstReach (fun n => 8 * n) 10 31 150 = 19 := by decide
+    rw [f2]
+    have d2 : ([] : List Nat).dropWhile (fun x => decide (x ≤ 8 * 19)) = [] := by rfl
+    rw [d2, sel]
+  simp only at h
+  rw [hsel] at h
+  exact h
 
 end C05
